@@ -423,6 +423,13 @@ Spans of submodels differ:
         NaN/Inf, from it being propagated (it's not immediately obvious if this
         has any use, though).
         """
+        # Error if `min_iter` exceeds `max_iter`
+        if min_iter > max_iter:
+            raise ValueError(
+                f'Value of `min_iter` ({min_iter}) '
+                f'cannot exceed value of `max_iter` ({max_iter})'
+            )
+
         if submodels is None:
             submodels = list(self.__dict__['submodels'].keys())
 
